@@ -11,6 +11,7 @@ fn main() {
     }
     vcore::init();
     let args = report::parse_args(&argv[2..]);
+    report::start_watchdog(args.tier);
     let code = match argv[1].as_str() {
         "C01" => c01::run(&args),
         "C02" => c02::run(&args),
